@@ -83,6 +83,16 @@ def fake_modules(host):
     socket_mod.SOL_SOCKET = sol
     if host != 'darwin':
         socket_mod.SOCK_NONBLOCK, socket_mod.SOCK_CLOEXEC = (0x800, 0x80000) if host != 'sparse' else (0x4, 0x10000000)
+    # protocol numbers are the same everywhere, the set of NAMES a host's module defines is not
+    darwin_proto = {0: 'IPPROTO_IP', 1: 'IPPROTO_ICMP', 2: 'IPPROTO_IGMP', 3: 'IPPROTO_GGP', 4: 'IPPROTO_IPV4', 6: 'IPPROTO_TCP', 8: 'IPPROTO_EGP',
+                    12: 'IPPROTO_PUP', 17: 'IPPROTO_UDP', 22: 'IPPROTO_IDP', 29: 'IPPROTO_TP', 36: 'IPPROTO_XTP', 41: 'IPPROTO_IPV6', 43: 'IPPROTO_ROUTING',
+                    44: 'IPPROTO_FRAGMENT', 46: 'IPPROTO_RSVP', 47: 'IPPROTO_GRE', 50: 'IPPROTO_ESP', 51: 'IPPROTO_AH', 58: 'IPPROTO_ICMPV6',
+                    59: 'IPPROTO_NONE', 60: 'IPPROTO_DSTOPTS', 63: 'IPPROTO_HELLO', 77: 'IPPROTO_ND', 80: 'IPPROTO_EON', 103: 'IPPROTO_PIM',
+                    108: 'IPPROTO_IPCOMP', 132: 'IPPROTO_SCTP', 255: 'IPPROTO_RAW', 256: 'IPPROTO_MAX'}
+    keep = {'darwin': lambda k: True, 'sparse': lambda k: k in (0, 6, 17)}.get(host, lambda k: k % 3 != 1)
+    for k, v in darwin_proto.items():
+        if keep(k):
+            setattr(socket_mod, v, k)
     socket_mod.AF_MAX = {'darwin': 41}.get(host, 46)
     socket_mod.SOMAXCONN = {'darwin': 128}.get(host, 4096)
     for k, v in am.items():
@@ -108,7 +118,24 @@ def fake_modules(host):
             m.__dict__['__getattr__'] = lambda attr: getattr(real, attr)
             return m
         path_mod = proxy('posixpath', posixpath, {'normcase': ntpath.normcase} if osname == 'nt' else {})
-        mods['os'] = proxy('os', real_os, {'name': osname, 'path': path_mod})
+        seek = {'darwin': {'SEEK_HOLE': 3, 'SEEK_DATA': 4}, 'scrambled-2': {'SEEK_HOLE': 4, 'SEEK_DATA': 3}}.get(host)
+        os_over = {'name': osname, 'path': path_mod}
+        hidden = set()
+        if seek:
+            os_over.update(seek)
+        else:
+            hidden = {'SEEK_HOLE', 'SEEK_DATA'}       # a host that has neither
+        mods['os'] = proxy('os', real_os, os_over)
+        if hidden:
+            def os_getattr(attr, _real=real_os, _hidden=hidden):
+                if attr in _hidden:
+                    raise AttributeError(attr)
+                return getattr(_real, attr)
+            mods['os'].__dict__['__getattr__'] = os_getattr
+        # the C data model: a long is 32 bits on the 'nt' hosts
+        import ctypes as real_ctypes
+        ct_over = {'c_long': real_ctypes.c_int32, 'c_ulong': real_ctypes.c_uint32} if osname == 'nt' else {}
+        mods['ctypes'] = proxy('ctypes', real_ctypes, ct_over)
         mods['sys'] = proxy('sys', real_sys, {'platform': plat, 'getfilesystemencoding': lambda: enc[0],
                                              'getfilesystemencodeerrors': lambda: enc[1]})
         mods['platform'] = proxy('platform', real_platform, {'system': lambda: system})
